@@ -513,7 +513,7 @@ Proof.
   destruct (flush_loop_counters _ _ _ _ _ _ _ Hle E) as (G1 & G2 & G3 & G4).
   pose proof (flush_loop_ctrs _ _ _ _ _ _ _ Hle E) as G5.
   destruct HJ as (J1 & J2 & J3 & J4).
-  assert (Hres : J (Some {| kidx := kidx k; knonce := n' |}) used (tr ++ tx)).
+  assert (Hres : J (Some {| kidx := kidx k; knonce := n'; kinit := kinit k |}) used (tr ++ tx)).
   { unfold J. refine (conj _ (conj _ (conj J3 _))).
     - apply Forall_app. split; [exact J1|]. eapply Forall_impl; [|exact G3]. cbn beta.
       intros t (Hk & _ & _ & Hr). rewrite Hk. auto.
@@ -536,21 +536,63 @@ Proof.
   - cbn [fst snd cur o_tx]. exact Hres.
 Qed.
 
+(* Facts about flush that do not depend on the invariant. *)
+Lemma flush_facts s :
+  nxt (fst (flush s)) = nxt s /\
+  option_map kidx (cur (fst (flush s))) = option_map kidx (cur s) /\
+  (forall t, In t (o_tx (snd (flush s))) -> exists k, cur s = Some k /\ kix t = kidx k).
+Proof.
+  unfold flush. destruct (staged s) as [|c0 q0] eqn:Est.
+  { cbn [fst snd o_tx]. repeat split; auto. intros t []. }
+  assert (Hinit : forall s1 tx, nxt (fst (initiate s1 tx)) = nxt s1 /\ cur (fst (initiate s1 tx)) = cur s1 /\ o_tx (snd (initiate s1 tx)) = tx).
+  { intros s1 tx. unfold initiate. destruct (init_ok s1); cbn; auto. }
+  destruct (cur s) as [k|] eqn:Ec.
+  2:{ destruct (Hinit s []) as (A & B & C). rewrite A, B, C, Ec. repeat split; auto. intros t []. }
+  destruct (N.leb_spec Reject (knonce k)) as [Hge|Hlt].
+  { destruct (Hinit s []) as (A & B & C). rewrite A, B, C, Ec. repeat split; auto. intros t []. }
+  destruct (flush_loop (kidx k) (knonce k) (c0 :: q0)) as [[[n' q'] tx] ex] eqn:E.
+  assert (Hle : knonce k <= Reject) by lia.
+  destruct (flush_loop_counters _ _ _ _ _ _ _ Hle E) as (_ & _ & G3 & _).
+  assert (Htx : forall t, In t tx -> exists k0, Some k = Some k0 /\ kix t = kidx k0).
+  { intros t Ht. exists k. split; [reflexivity|]. rewrite Forall_forall in G3. apply (G3 t Ht). }
+  destruct (ex || (nonempty tx && (Rekey <? n'))).
+  - match goal with |- context [initiate ?s1 tx] => destruct (Hinit s1 tx) as (A & B & C); rewrite A, B, C end.
+    cbn [nxt cur option_map kidx]. repeat split; auto.
+  - cbn [fst snd nxt cur o_tx option_map kidx]. repeat split; auto.
+Qed.
+
 (* Discipline of the environment: the hook only raises a counter, and the remote
-   party never hands out the same receiver index twice. *)
+   party never hands out the same receiver index twice (neither when it answers
+   nor when it initiates). *)
 Definition used_after (used : list N) (e : ev) : list N :=
-  match e with Answer idx => idx :: used | _ => used end.
+  match e with Answer idx | RefInit idx => idx :: used | _ => used end.
+
+Definition ev_ok (s : dst) (used : list N) (e : ev) : Prop :=
+  match e with
+  | SetNonce v => match cur s with Some k => knonce k <= v | None => True end
+  | Answer idx | RefInit idx => ~ In idx used
+  | _ => True
+  end.
 
 Fixpoint wf (s : dst) (used : list N) (evs : list ev) : Prop :=
   match evs with
   | [] => True
-  | e :: r =>
-      match e with
-      | SetNonce v => match cur s with Some k => knonce k <= v | None => True end
-      | Answer idx => ~ In idx used
-      | _ => True
-      end /\ wf (fst (dstep s e)) (used_after used e) r
+  | e :: r => ev_ok s used e /\ wf (fst (dstep s e)) (used_after used e) r
   end.
+
+(* the clause of J about one keypair slot *)
+Definition Jk (c : option keyp) (used : list N) (tr : list (N * N * N)) : Prop :=
+  match c with
+  | Some k => In (kidx k) used /\ forall t, In t tr -> kix t = kidx k -> ctr t < knonce k
+  | None => True
+  end.
+
+Definition apart (a b : option keyp) : Prop :=
+  match a, b with Some x, Some y => kidx x <> kidx y | _, _ => True end.
+
+(* the invariant of the whole slice state: current and next keypair *)
+Definition JJ (s : dst) (used : list N) (tr : list (N * N * N)) : Prop :=
+  J (cur s) used tr /\ Jk (nxt s) used tr /\ apart (cur s) (nxt s).
 
 Lemma J_weaken c used tr x : J c used tr -> J c (x :: used) tr.
 Proof.
@@ -559,34 +601,74 @@ Proof.
   - destruct c as [k|]; [|exact I]. destruct J3 as [A B]. split; [right; exact A|exact B].
 Qed.
 
-Lemma dstep_J s used tr e :
-  J (cur s) used tr ->
-  match e with
-  | SetNonce v => match cur s with Some k => knonce k <= v | None => True end
-  | Answer idx => ~ In idx used
-  | _ => True
-  end ->
-  J (cur (fst (dstep s e))) (used_after used e) (tr ++ o_tx (snd (dstep s e))).
+Lemma Jk_weaken c used tr x : Jk c used tr -> Jk c (x :: used) tr.
+Proof. destruct c as [k|]; cbn [Jk]; [|auto]. intros [A B]. split; [right; exact A|exact B]. Qed.
+
+Lemma flush_JJ s used tr : JJ s used tr -> JJ (fst (flush s)) used (tr ++ o_tx (snd (flush s))).
 Proof.
-  intros HJ Hwf. destruct e as [v|pkts|idx| |b]; cbn [dstep used_after].
-  - cbn [fst snd o_tx]. rewrite app_nil_r. destruct (cur s) as [k|] eqn:Ec; cbn [cur]; [|rewrite Ec; exact HJ].
-    destruct HJ as (J1 & J2 & J3 & J4). refine (conj J1 (conj J2 (conj J3 _))).
-    cbn [kidx knonce]. intros t Hin Hk. specialize (J4 _ Hin Hk). lia.
-  - destruct pkts as [|p pkts].
-    + cbn [fst snd o_tx]. rewrite app_nil_r. exact HJ.
-    + apply flush_J. cbn [cur]. exact HJ.
-  - destruct (pending s).
-    + apply flush_J. unfold stage_keepalive. cbn [staged cur].
-      assert (HJ' : J (Some {| kidx := idx; knonce := 0 |}) (idx :: used) tr).
-      { destruct HJ as (J1 & J2 & _). refine (conj _ (conj J2 (conj _ _))).
+  intros (HJ & Hn & Ha). destruct (flush_facts s) as (F1 & F2 & F3).
+  refine (conj (flush_J s used tr HJ) (conj _ _)).
+  - rewrite F1. destruct (nxt s) as [kn|] eqn:En; cbn [Jk] in *; [|exact I].
+    destruct Hn as [A B]. split; [exact A|]. intros t Hin Hk.
+    apply in_app_or in Hin as [Hin|Hin]; [apply B; assumption|].
+    exfalso. destruct (F3 t Hin) as (k & Ec & Hkk). rewrite Ec in Ha. cbn [apart] in Ha. congruence.
+  - rewrite F1. destruct (cur (fst (flush s))) as [k'|] eqn:Ec'; destruct (cur s) as [k|] eqn:Ec; cbn [option_map] in F2; try discriminate; cbn [apart] in *; auto.
+    destruct (nxt s); [|exact I]. inversion F2. congruence.
+Qed.
+
+Lemma JJ_stage s used tr q :
+  JJ s used tr ->
+  JJ {| cur := cur s; nxt := nxt s; staged := q; init_ok := init_ok s; pending := pending s |} used tr.
+Proof. intros H. exact H. Qed.
+
+Lemma dstep_JJ s used tr e :
+  JJ s used tr -> ev_ok s used e ->
+  JJ (fst (dstep s e)) (used_after used e) (tr ++ o_tx (snd (dstep s e))).
+Proof.
+  intros HJJ Hwf. pose proof HJJ as (HJ & Hn & Ha).
+  destruct e as [v|pkts|idx| |b|idx|]; cbn [dstep used_after ev_ok] in *.
+  - (* SetNonce *)
+    cbn [fst snd o_tx]. rewrite app_nil_r. destruct (cur s) as [k|] eqn:Ec.
+    + unfold JJ. cbn [cur nxt]. refine (conj _ (conj Hn _)).
+      * destruct HJ as (J1 & J2 & J3 & J4). refine (conj J1 (conj J2 (conj J3 _))).
+        cbn [kidx knonce]. intros t Hin Hk. specialize (J4 _ Hin Hk). lia.
+      * destruct (nxt s); cbn [apart kidx] in *; auto.
+    + unfold JJ. rewrite Ec. auto.
+  - (* TunBatch *)
+    destruct pkts as [|p pkts].
+    + cbn [fst snd o_tx]. rewrite app_nil_r. exact HJJ.
+    + apply flush_JJ. exact HJJ.
+  - (* Answer *)
+    destruct (pending s).
+    + apply flush_JJ. unfold stage_keepalive. cbn [staged].
+      assert (H' : JJ {| cur := Some {| kidx := idx; knonce := 0; kinit := true |}; nxt := None; staged := staged s;
+                         init_ok := init_ok s; pending := false |} (idx :: used) tr).
+      { unfold JJ. cbn [cur nxt Jk apart]. refine (conj _ (conj I I)).
+        destruct HJ as (J1 & J2 & _). refine (conj _ (conj J2 (conj _ _))).
         - eapply Forall_impl; [|exact J1]. cbn beta. intros t [A B]. split; [exact A|right; exact B].
         - left. reflexivity.
         - cbn [kidx knonce]. intros t Hin Hk. exfalso. rewrite Forall_forall in J1.
           destruct (J1 _ Hin) as [_ Hu]. rewrite Hk in Hu. contradiction. }
-      destruct (staged s); cbn [cur]; exact HJ'.
-    + cbn [fst snd o_tx]. rewrite app_nil_r. apply J_weaken. exact HJ.
-  - cbn [fst snd o_tx cur]. rewrite app_nil_r. exact HJ.
-  - apply flush_J. destruct b; [|exact HJ]. unfold stage_keepalive. destruct (staged s); cbn [cur]; exact HJ.
+      destruct (staged s); exact H'.
+    + cbn [fst snd o_tx]. rewrite app_nil_r. unfold JJ.
+      refine (conj (J_weaken _ _ _ _ HJ) (conj (Jk_weaken _ _ _ _ Hn) Ha)).
+  - (* AllowInit *)
+    cbn [fst snd o_tx]. rewrite app_nil_r. exact HJJ.
+  - (* Uapi *)
+    apply flush_JJ. destruct b; [|exact HJJ]. unfold stage_keepalive. destruct (staged s); exact HJJ.
+  - (* RefInit: a fresh keypair waits in next *)
+    cbn [fst snd o_tx]. rewrite app_nil_r. unfold JJ. cbn [cur nxt].
+    refine (conj (J_weaken _ _ _ _ HJ) (conj _ _)).
+    + cbn [Jk kidx knonce]. split; [left; reflexivity|]. intros t Hin Hk. exfalso.
+      destruct HJ as (J1 & _). rewrite Forall_forall in J1. destruct (J1 _ Hin) as [_ Hu]. rewrite Hk in Hu. contradiction.
+    + destruct (cur s) as [k|] eqn:Ec; cbn [apart kidx]; [|exact I].
+      destruct HJ as (_ & _ & J3 & _). intros E. rewrite E in J3. contradiction.
+  - (* RefData: next becomes current *)
+    destruct (nxt s) as [kn|] eqn:En.
+    + apply flush_JJ. unfold JJ. cbn [cur nxt Jk apart]. refine (conj _ (conj I I)).
+      destruct HJ as (J1 & J2 & _). cbn [Jk] in Hn. destruct Hn as [A B].
+      refine (conj J1 (conj J2 (conj A B))).
+    + cbn [fst snd o_tx]. rewrite app_nil_r. exact HJJ.
 Qed.
 
 Definition all_tx (s : dst) (evs : list ev) : list (N * N * N) := concat (map o_tx (outs dstep s evs)).
@@ -597,14 +679,14 @@ Proof.
   destruct (Prelude.run dstep s1 r) as [s2 os] eqn:E2. cbn [snd map concat]. reflexivity.
 Qed.
 
-Lemma run_J evs : forall s used tr,
-  J (cur s) used tr -> wf s used evs ->
-  exists used', J (cur (final dstep s evs)) used' (tr ++ all_tx s evs).
+Lemma run_JJ evs : forall s used tr,
+  JJ s used tr -> wf s used evs ->
+  exists used', JJ (final dstep s evs) used' (tr ++ all_tx s evs).
 Proof.
   induction evs as [|e r IH]; intros s used tr HJ Hwf.
   - exists used. unfold all_tx, outs, final. cbn. rewrite app_nil_r. exact HJ.
   - cbn [wf] in Hwf. destruct Hwf as [Hw Hr].
-    pose proof (dstep_J s used tr e HJ Hw) as HJ1.
+    pose proof (dstep_JJ s used tr e HJ Hw) as HJ1.
     destruct (IH _ _ _ HJ1 Hr) as (used' & HJ2). exists used'.
     rewrite all_tx_cons, app_assoc.
     replace (final dstep s (e :: r)) with (final dstep (fst (dstep s e)) r); [exact HJ2|].
@@ -612,16 +694,43 @@ Proof.
     destruct (Prelude.run dstep s1 r). reflexivity.
 Qed.
 
-(* For EVERY history of events of the slice model (TUN batches, handshake
-   completions, UAPI sets, hook calls that only raise the counter) in which the
-   remote party uses fresh receiver indices: no two transport messages carry
-   the same (receiver index, counter) and every counter is below the limit. *)
+(* For EVERY history of events of the slice model (TUN batches, handshakes
+   completed as initiator or as responder, UAPI sets, hook calls that only raise
+   the counter) in which the remote party uses fresh receiver indices: no two
+   transport messages carry the same (receiver index, counter) and every counter
+   is below the limit. *)
 Theorem slice_never_reuses evs :
   wf dinit [] evs ->
   NoDup (map kc (all_tx dinit evs)) /\ Forall (fun t => ctr t < Reject) (all_tx dinit evs).
 Proof.
   intros Hwf.
-  assert (H0 : J (cur dinit) [] []) by (unfold J, dinit; cbn; repeat split; constructor).
-  destruct (run_J evs dinit [] [] H0 Hwf) as (used' & J1 & J2 & _). cbn [app] in *.
+  assert (H0 : JJ dinit [] []).
+  { unfold JJ, J, dinit; cbn. repeat split; constructor. }
+  destruct (run_JJ evs dinit [] [] H0 Hwf) as (used' & (J1 & J2 & _) & _). cbn [app] in *.
   split; [exact J2|]. eapply Forall_impl; [|exact J1]. cbn beta. tauto.
+Qed.
+
+(* The message-count rekey rule on a session where the device was the RESPONDER:
+   the remote party initiated (RefInit) and confirmed with data (RefData); once
+   a transmitted counter has reached 2^60 the device itself starts a handshake. *)
+Theorem rekey_after_2_60_as_responder s idx v pkts :
+  v < Reject -> pkts <> [] -> staged s = [] ->
+  let s1 := fst (dstep s (RefInit idx)) in
+  let s2 := fst (dstep s1 RefData) in
+  let s3 := fst (dstep (fst (dstep s2 AllowInit)) (SetNonce v)) in
+  cur s3 = Some {| kidx := idx; knonce := v; kinit := false |} /\
+  let o := snd (dstep s3 (TunBatch pkts)) in
+  ((exists t, In t (o_tx o) /\ Rekey <= ctr t) -> o_init o = 1).
+Proof.
+  intros Hv Hp Hst. cbn zeta.
+  assert (E3 : cur (fst (dstep (fst (dstep (fst (dstep (fst (dstep s (RefInit idx))) RefData)) AllowInit)) (SetNonce v)))
+               = Some {| kidx := idx; knonce := v; kinit := false |}).
+  { cbn [dstep fst nxt]. unfold flush. cbn [staged]. rewrite Hst. cbn [fst cur kidx kinit]. reflexivity. }
+  split; [exact E3|].
+  set (s3 := fst (dstep (fst (dstep (fst (dstep (fst (dstep s (RefInit idx))) RefData)) AllowInit)) (SetNonce v))) in *.
+  assert (Hok : init_ok s3 = true).
+  { subst s3. cbn [dstep fst nxt]. unfold flush. cbn [staged]. rewrite Hst. cbn [fst cur init_ok]. reflexivity. }
+  pose proof (rekey_after_2_60 s3 _ pkts E3 Hv Hp) as H.
+  destruct (dstep s3 (TunBatch pkts)) as [s4 o]. cbn [snd]. intros Hex.
+  destruct (H Hex) as [Hi _]. rewrite Hok in Hi. exact Hi.
 Qed.
